@@ -436,3 +436,128 @@ func c18r6(rc *core.RC) {
 		rc.Unknown("encoder/escape-flag-calls", token.NoPos, "found %d calls that hand the escape flag down in compact.go/indent.go", n)
 	}
 }
+
+// ---- C18.R7 HTMLEscape keeps numbers as text ----
+
+// HTMLEscape decodes the text and encodes it again. Numbers survive that only if they are decoded
+// as json.Number: the decoder it uses must have UseNumber set before Decode (a plain Unmarshal, or
+// a Decoder without UseNumber, converts every number to float64 and back).
+func c18r7(rc *core.RC) {
+	p := rc.P
+	fd := p.Func("json", "HTMLEscape")
+	key := "json.HTMLEscape/numbers-kept-as-text"
+	if fd == nil {
+		rc.Unknown(key, token.NoPos, "not found")
+		return
+	}
+	rc.Touch("json.HTMLEscape")
+	info := p.Info(fd)
+	var useNum, decode ast.Node
+	var decObj, useObj types.Object
+	plain := ""
+	ast.Inspect(fd.Body, func(m ast.Node) bool {
+		c, ok := m.(*ast.CallExpr)
+		if !ok {
+			return true
+		}
+		name := core.CalleeName(info, c)
+		switch {
+		case strings.HasSuffix(name, "Decoder.UseNumber"):
+			useNum = c
+			if sel, ok := c.Fun.(*ast.SelectorExpr); ok {
+				useObj = core.ObjOf(info, sel.X)
+			}
+		case strings.HasSuffix(name, "Decoder.Decode") || strings.HasSuffix(name, "Decoder.DecodeWithOption") || strings.HasSuffix(name, "Decoder.DecodeContext"):
+			decode = c
+			if sel, ok := c.Fun.(*ast.SelectorExpr); ok {
+				decObj = core.ObjOf(info, sel.X)
+			}
+		case name == "json.Unmarshal" || name == "json.UnmarshalWithOption" || name == "json.UnmarshalNoEscape" || name == "json.unmarshal":
+			plain = name
+		}
+		return true
+	})
+	switch {
+	case plain != "":
+		rc.Bad(key, fd.Pos(), "HTMLEscape decodes with %s, which turns every number into a float64: 9007199254740993 comes back as 9007199254740992 and long decimals are shortened", plain)
+	case decode == nil || useNum == nil:
+		rc.Bad(key, fd.Pos(), "HTMLEscape does not decode through a Decoder on which UseNumber was called")
+	default:
+		rc.Check(decObj != nil && decObj == useObj && useNum.Pos() < decode.Pos(), key, decode.Pos(), "the Decoder that decodes the text had UseNumber called on it before Decode")
+	}
+}
+
+// ---- C18.R8 Valid looks at every byte after the value ----
+
+// Valid decodes one value through a Decoder and must then make sure that only whitespace follows.
+// Decoder.More is not that test (it is false in front of '}' and ']' and at a NUL). The success
+// return has to come after a loop over data[InputOffset():] that returns false for anything but
+// the four whitespace bytes.
+func c18r8(rc *core.RC) {
+	p := rc.P
+	fd := p.Func("json", "Valid")
+	key := "json.Valid/trailing-bytes-examined"
+	if fd == nil {
+		rc.Unknown(key, token.NoPos, "not found")
+		return
+	}
+	rc.Touch("json.Valid")
+	info := p.Info(fd)
+	usesMore := false
+	var loop *ast.RangeStmt
+	ast.Inspect(fd.Body, func(m ast.Node) bool {
+		switch x := m.(type) {
+		case *ast.CallExpr:
+			if strings.HasSuffix(core.CalleeName(info, x), "Decoder.More") {
+				usesMore = true
+			}
+		case *ast.RangeStmt:
+			if sl, ok := core.Unparen(x.X).(*ast.SliceExpr); ok && sl.Low != nil && sl.High == nil {
+				loop = x
+			}
+		}
+		return true
+	})
+	if usesMore {
+		rc.Bad(key, fd.Pos(), "Valid uses Decoder.More as its end-of-input test: More is false in front of a closing bracket and at a NUL byte, so {}}, []], `1 ]` and \"1\\x00\" are reported valid")
+		return
+	}
+	if loop == nil {
+		rc.Bad(key, fd.Pos(), "no loop over the bytes that follow the decoded value")
+		return
+	}
+	// the loop body sends every non-whitespace byte to `return false`
+	var bs *core.ByteSwitch
+	ast.Inspect(loop.Body, func(m ast.Node) bool {
+		if sw, ok := m.(*ast.SwitchStmt); ok && bs == nil {
+			bs, _ = core.EvalByteSwitch(info, sw)
+		}
+		return true
+	})
+	if bs == nil {
+		rc.Unknown(key, loop.Pos(), "the loop over the trailing bytes has no byte switch")
+		return
+	}
+	var passes []int
+	for b := 0; b < 256; b++ {
+		ci := bs.Of[b]
+		if ci < 0 {
+			ci = bs.Default
+		}
+		rejects := false
+		if ci >= 0 {
+			for _, st := range bs.Clauses[ci].Body {
+				if r, ok := st.(*ast.ReturnStmt); ok && len(r.Results) == 1 {
+					if v := core.ConstValue(info, r.Results[0]); v != nil && v.String() == "false" {
+						rejects = true
+					}
+				}
+			}
+		}
+		if !rejects {
+			passes = append(passes, b)
+		}
+	}
+	want := []int{'\t', '\n', '\r', ' '}
+	rc.Check(fmt.Sprint(passes) == fmt.Sprint(want), key, loop.Pos(), "after the value the bytes %s are skipped and every other byte makes Valid false (all 256 values evaluated; wanted exactly tab, LF, CR, space)", core.FmtBytes(passes))
+}
